@@ -41,6 +41,9 @@ pub struct Scenario {
     pub warm: bool,
     pub timeouts: Vec<u8>,
     pub net_cap: usize,
+    /// 0 = free-form run; 1 = the property's structured scenario (C16 lockstep, C17 handoff)
+    #[serde(default)]
+    pub mode: u8,
 }
 
 #[derive(Clone, Debug, Serialize, Deserialize, PartialEq)]
@@ -202,6 +205,8 @@ pub struct Profile {
     pub min_voters: usize,
     /// allow initial joint config
     pub allow_initial_joint: bool,
+    /// probability (x/256) that a case uses the structured scenario (mode 1)
+    pub mode1_p: u8,
 }
 
 fn pick<T: Copy>(table: &[T], b: u8) -> T {
@@ -315,6 +320,7 @@ impl Profile {
             warm,
             timeouts,
             net_cap: 96,
+            mode: if r[31] < self.mode1_p { 1 } else { 0 },
         }
     }
 
